@@ -1,34 +1,38 @@
 #!/usr/bin/env python3
 """Assembles /verif/seeded/<id>/ from the sub-agents' deliveries, the confirmation log and the detection runs.
-usage: tools/build_seeded.py <pending dir> <confirm.log> <matrix log> [<matrix log> ...]"""
+usage: tools/build_seeded.py <pending dir>[,<pending dir>...] <confirm.log>[,<confirm.log>...] <notes.json> <matrix log> [<matrix log> ...]"""
 import json, os, re, shutil, sys
-pending, confirm = sys.argv[1], sys.argv[2]
+pendings, confirms, notes = sys.argv[1].split(','), sys.argv[2].split(','), json.load(open(sys.argv[3]))
 conf = {}
-for ln in open(confirm):
-    ln = ln.strip()
-    if ln.startswith('{'):
-        d = json.loads(ln); conf[d['id']] = d
+for confirm in confirms:
+    for ln in open(confirm):
+        ln = ln.strip()
+        if ln.startswith('{'):
+            d = json.loads(ln); conf[d['id']] = d
 runs = {}
-for f in sys.argv[3:]:
+for f in sys.argv[4:]:
     for ln in open(f):
-        m = re.match(r'^(C\d+-\d+) (C\d+) rc=(\d+) ?(.*)$', ln.strip())
-        if m: runs.setdefault(m.group(1), {})[m.group(2)] = dict(exit_code=int(m.group(3)), first_violation=m.group(4).strip())
+        m = re.match(r'^(C\d+(?:-r2)?-\d+) (C\d+) rc=(\d+) ?(.*)$', ln.strip())
+        if m:
+            r = runs.setdefault(m.group(1), {}).setdefault(m.group(2), [])
+            r.append(dict(exit_code=int(m.group(3)), first_violation=m.group(4).strip()))
 root = os.path.join(os.path.dirname(os.path.dirname(os.path.abspath(__file__))), 'seeded')
-for sid in sorted(os.listdir(pending)):
+for pending, sid in sorted((p, x) for p in pendings for x in os.listdir(p)):
     src = os.path.join(pending, sid); dst = os.path.join(root, sid)
     if not conf.get(sid, {}).get('ok'):
         print('skip (not confirmed):', sid); continue
     os.makedirs(dst, exist_ok=True)
     for fn in ('patch.diff', 'demo.cpp'): shutil.copy(os.path.join(src, fn), os.path.join(dst, fn))
     meta = json.load(open(os.path.join(src, 'meta.json')))
-    meta['demo_build_cmd'] = re.sub(r'/tmp/seed_C\d+', '<worktree>', meta.get('demo_build_cmd', ''))
+    meta['demo_build_cmd'] = re.sub(r'/tmp/seed2?_C\d+', '<worktree>', meta.get('demo_build_cmd', ''))
     meta['id'] = sid
     meta['breaks_property'] = meta.get('property', sid.split('-')[0])
     meta['written_by'] = 'independent sub-agent given only the text of the property and a scratch worktree of /repo (nothing from /verif)'
     meta['confirmed_by_me'] = dict(how='tools/confirm_seed.sh in a fresh scratch worktree of /repo HEAD: patch applies; unedited 28-case suite passes with it; demo exits 0 without and non-zero with the patch',
                                    result=conf[sid])
     meta['checks_run'] = dict(how='tools/run_seed.sh <seed> <property>: quick tier of ./check against a scratch worktree with the patch applied (VERIF_REPO), exit 1 = VIOLATION reported (replay-confirmed), 0 = not detected, 2 = inconclusive',
-                              results=runs.get(sid, {}))
-    meta['detected_by'] = sorted(p for p, r in runs.get(sid, {}).items() if r['exit_code'] == 1)
+                              results={p: (r[-1] if len(r) == 1 else dict(r[-1], earlier_runs=r[:-1])) for p, r in runs.get(sid, {}).items()})
+    meta['detected_by'] = sorted(p for p, r in runs.get(sid, {}).items() if r[-1]['exit_code'] == 1)
+    if sid in notes: meta['note'] = notes[sid]
     json.dump(meta, open(os.path.join(dst, 'meta.json'), 'w'), indent=1)
 print('seeded/: %d changes' % len(os.listdir(root)))
